@@ -186,6 +186,18 @@ def std_kinds(names, cfg_fn=None, cfg_fn2=None, partial_fn=None):
           N.Color.RED: v[0], N.Color.BLUE: v[1], (1, 'a'): 0, ('a', 1): 0}),
       'dictenumr': Kind('dictenumr', 2, False, lambda v: {
           ('a', 1): 0, (1, 'a'): 0, N.Color.BLUE: v[1], N.Color.RED: v[0]}),
+      # keys that Python orders only partially (sets) or not transitively
+      # across types, in several insertion orders
+      'dictfs': Kind('dictfs', 2, False, lambda v: {
+          frozenset({1}): v[0], frozenset({2}): v[1]}),
+      'dictfsr': Kind('dictfsr', 2, False, lambda v: {
+          frozenset({2}): v[1], frozenset({1}): v[0]}),
+      'dictcyc': Kind('dictcyc', 2, False, lambda v: {
+          2: v[0], 2.5: 0, frozenset({3}): v[1]}),
+      'dictcycr': Kind('dictcycr', 2, False, lambda v: {
+          frozenset({3}): v[1], 2.5: 0, 2: v[0]}),
+      'dictcycm': Kind('dictcycm', 2, False, lambda v: {
+          2.5: 0, frozenset({3}): v[1], 2: v[0]}),
       'dictmixr': Kind('dictmixr', 2, False,
                        lambda v: {(1,): 0, None: 0, 'a': v[1], 1: v[0]}),
       'cfgpos': Kind('cfgpos', 3, True, mk_cfgpos, True),
